@@ -32,7 +32,7 @@ ASSUMPTIONS = [
 REQUIRED_LABELS = {t: ["valid:%s" % n for n in V1_NAMES] + ["invalid:%s" % n for n in V1_NAMES] +
                    ["corruptions:0", "corruptions:1", "corruptions:2", "depth:3", "depth:4",
                     "tweak", "revalidated:same", "revalidated:other", "duplicate-target",
-                    "compressed-key", "applied:key-field-reshaped"]
+                    "compressed-key", "applied:key-field-reshaped", "edited-between-validations"]
                    for t in ("quick", "thorough")}
 CORR = ["flip-message", "flip-signature", "flip-tweak", "swap-signatures", "other-key",
         "drop-tweak", "add-tweak", "rekey", "wrong-root", "der-trailing", "flip-embedded-key",
@@ -70,7 +70,16 @@ def cases(draw, tier):
             "corruptions": corr,
             # further validations of the SAME loaded object: 'same' root again, or another root
             "again": draw(st.lists(st.sampled_from(["same", "other", "same"]), max_size=3)),
-            "other_root": draw(st.integers(1, 2 ** 256))}
+            "other_root": draw(st.integers(1, 2 ** 256)),
+            # an edit of the loaded object between validations: one element is replaced (as
+            # gathering a new attestation into an existing certificate does) by what one more
+            # corruption / re-keying makes of it
+            "edit": draw(st.one_of(st.none(), st.fixed_dictionaries({
+                "kind": st.sampled_from(["rekey", "rekey", "flip-message", "flip-signature",
+                                         "other-key", "flip-embedded-key"]),
+                "el": st.sampled_from(names), "el2": st.sampled_from(names),
+                "bit": st.integers(0, 4000), "key": st.integers(1, 2 ** 256),
+                "extra": st.binary(min_size=1, max_size=4)})))}
 
 
 def flip(b, bit):
@@ -213,9 +222,12 @@ def run_case(c):
     for a in c.get("again", []):
         rounds.append((a, root_pub if a == "same" else pub_uncompressed(sk_from_int(
             c["other_root"]))))
+    root_objs = {}
     for rnd, (what, rp) in enumerate(rounds):
         expected = cert.expected(rp)
-        got = loaded.validate_and_get_values(HSMCertificateRoot(rp.hex()))
+        # (one root object per key: a caller validating again hands over the object it has)
+        got = loaded.validate_and_get_values(root_objs.setdefault(rp, HSMCertificateRoot(
+            rp.hex())))
         if rnd > 0:
             labels.append("revalidated:" + what)
         where = "validation #%d of the same object (%s root)" % (rnd + 1, what)
@@ -242,6 +254,29 @@ def run_case(c):
                                                     json.dumps(cert.to_dict())[:1500]))
             if rnd == 0:
                 labels.append(("valid:%s" % t) if exp[0] else ("invalid:%s" % exp[1]))
+    if c.get("edit") and not any(k["kind"] == "wrong-root" for k in c["corruptions"]):
+        c2 = dict(c, corruptions=list(c["corruptions"]) + [c["edit"]])
+        cert2, root_pub2 = build(c2)
+        before = {e["name"]: e for e in cert.to_dict()["elements"]}
+        changed = [e for e in cert2.to_dict()["elements"] if before.get(e["name"]) != e]
+        if changed and root_pub2 == root_pub:
+            from admin.certificate import HSMCertificateElement
+            for e in changed:
+                loaded.add_element(HSMCertificateElement(e))
+            expected = cert2.expected(root_pub)
+            got = loaded.validate_and_get_values(root_objs[root_pub])
+            labels.append("edited-between-validations")
+            for t in dict.fromkeys(cert.targets):
+                exp = expected[t]
+                if exp == "ambiguous":
+                    continue
+                if tuple(got[t]) != tuple(exp):
+                    raise Violation("verdict-after-replacing-an-element", "element(s) %s "
+                                    "replaced in a certificate validated before; target %s: "
+                                    "code says %r, independent walk of the edited certificate "
+                                    "says %r; certificate %s" % (
+                                        [e["name"] for e in changed], t, got[t], exp,
+                                        json.dumps(cert2.to_dict())[:1500]))
     d = depth_of(c)
     labels.append("depth:%d" % d)
     has_tweak = any(e["tweak"] is not None for e in c["elements"])
